@@ -239,7 +239,7 @@ def run(ctx):
     ctx.assumptions = ["pins outside the field's width/class are outside the statement and not generated"]
     ccs = o.countries() + [""]
     ctx.pmap(shard_country, [(cc, ctx.seed, ctx.tier) for cc in ccs])
-    ctx.hyp_explore(strategy(), hyp_body, ctx.pick(2500, 100000), name="C13-hyp")
+    ctx.hyp_parallel(strategy, hyp_body, ctx.pick(6000, 300000), name="C13-hyp")
     # cross-process / hash-seed reproducibility of a fixed batch
     rng = ctx.rng("batch")
     batch = []
